@@ -148,6 +148,12 @@ impl ZbsdiffBuilder {
             }
         }
 
+        // Empty new data produces no control entries, but a patch needs at
+        // least one (same fallback as build_optimized_patch).
+        if control_entries.is_empty() {
+            return self.build_simple_patch();
+        }
+
         let control_block = ControlBlock::with_entries(control_entries)?;
         self.build_patch_internal(control_block, diff_data, extra_data)
     }
